@@ -32,7 +32,7 @@ def bars(grid, paths, spread):
 def full_model(name, contracts, space, grid, events, targets, lats=(0,), delays=(0,), fees="free", rate=F(0), markup=F(0),
                deposit=F(1000), thr=F(0), maxsteps=3, ruin="done", chain=(), chain_ltd=(), chain_exp=(), yearlen=0,
                base=(2019, 3, 4), invariants=(), properties=(), reset_anywhere=False, clockscope="restored_on_entry",
-               extends="EnvFull", extra_plain=None):
+               extends="EnvFull", extra_plain=None, chain_offset=0):
     cs = {c: CONTRACTS[c] for c in contracts}
     fixed, prop = FEES[fees]
     defs = {
@@ -46,14 +46,15 @@ def full_model(name, contracts, space, grid, events, targets, lats=(0,), delays=
         "ChainSeq": list(chain), "ChainLtd": list(chain_ltd), "ChainExp": list(chain_exp), "Thr": thr,
     }
     plain = {"RefRule": "carry", "SpotMult": "applied", "SubLot": "skip", "YearLen": yearlen, "MaxSteps": maxsteps,
-             "RuinStep": ruin, "ResetAnywhere": reset_anywhere, "ClockScope": clockscope}
+             "RuinStep": ruin, "ResetAnywhere": reset_anywhere, "ClockScope": clockscope, "ChainOffset": chain_offset}
     plain.update(extra_plain or {})
     return {
         "name": name,
         "module": tlagen.mc_module("MC", extends, defs),
         "cfg": tlagen.cfg(defs, plain, invariants=invariants, properties=properties),
         "ctx": {"model": {"contracts": cs, "space": list(space), "chain": list(chain), "fixed": fixed, "prop": prop,
-                          "deposit": deposit, "rate": rate, "markup": markup, "thr": thr, "base": list(base)},
+                          "deposit": deposit, "rate": rate, "markup": markup, "thr": thr, "base": list(base),
+                          "chain_offset": chain_offset},
                 "maxsteps": maxsteps, "name": name},
         "invariants": list(invariants), "properties": list(properties),
     }
@@ -209,6 +210,22 @@ def c11_models(tier):
     kw = dict(chain=["H19", "M19", "U19"], chain_ltd=ltd, chain_exp=exp, deposit=F(100000), invariants=C11_INV,
               properties=["LeadForward"])
     ms = [full_model("roll", cs, ["S1", "CH"], grid, ev, tg, lats=(0,), delays=(0, 1), fees="free", maxsteps=5, **kw)]
+    # the chain configured with a month offset: the second-nearest contract is the one traded
+    ms.append(full_model("roll-offset1", cs, ["S1", "CH"], grid, ev, tg[:3], lats=(0,), delays=(0,), fees="free", maxsteps=5,
+                         chain_offset=1, **kw))
+    # a last-trading instant inside the latency window: timesteps at 23:59:30, quotes again at 00:00:15, latency 60 s;
+    # the decision of the step before midnight of 03-07 is executed after the front contract stopped trading
+    d2 = [2, 3, 4, 5]
+    g2 = [DAY * d - 30 for d in d2]
+    p2 = {"S1": [8, 8, 12, 12], "H19": [12, 12, 16, 12], "M19": [12, 16, 16, 12], "U19": [16, 16, 12, 12]}
+    ev2 = bars(g2, p2, {"S1": 0, "H19": 4, "M19": 4, "U19": 0})
+    for i, g in enumerate(g2[:-1]):
+        for c, pth in p2.items():
+            ev2.append(Rec(t=g + 45, kind="q", c=c, bid=pth[i] + 4, ask=pth[i] + 4))
+    ev2 += [Rec(t=exp[0], kind="d", c="H19", bid=0, ask=0), Rec(t=exp[1], kind="d", c="M19", bid=0, ask=0),
+            Rec(t=exp[2], kind="d", c="U19", bid=0, ask=0)]
+    ms.append(full_model("roll-latency", cs, ["S1", "CH"], g2, ev2, tg[:3], lats=(60,), delays=(0, 1), fees="free", maxsteps=3,
+                         **kw))
     if tier != "quick":
         ms.append(full_model("roll-thr", cs, ["S1", "CH"], grid, ev, tg, lats=(0,), delays=(0,), fees="dy", thr=F(1, 16),
                              maxsteps=6, **kw))
